@@ -385,14 +385,18 @@ func (e *CEnv) local(name string) (Value, bool) {
 // counterOfRange: at the head of a loop that has a hidden range index, a vanished int variable read as that index plus one.
 // strict: only if the name is recorded as a loop-carried variable of this very loop.
 func (e *CEnv) counterOfRange(name string, strict bool) (Value, bool) {
-	if e.at == nil || e.fn == nil || name == "rangeindex" || !e.x.W.vanishedInt(e.fn, name) {
+	if e.at == nil || e.fn == nil || name == "rangeindex" {
 		return nil, false
 	}
 	if strict {
+		// recorded as a loop-carried variable of this loop and not one now (the name may live on as the range variable,
+		// which is assigned in the body and has no value at the loop head)
 		ord, ok := e.x.W.Loops(e.fn).Ord[e.at]
-		if !ok || !e.x.W.wasLoopVar(e.fn, ord, name) {
+		if !ok || !e.x.W.wasLoopVar(e.fn, ord, name) || !e.x.W.recordedInt(e.fn, name) {
 			return nil, false
 		}
+	} else if !e.x.W.vanishedInt(e.fn, name) {
+		return nil, false
 	}
 	for _, in := range e.at.Instrs {
 		p, ok := in.(*ssa.Phi)
